@@ -26,7 +26,7 @@ from harness import core
 from harness.extract import units as EX
 
 MANIFEST_ENTRY = {
-    "text": "Lean theorems over the generator model prove, for every pair of Bernoulli outcome lists, duration, multi-emission flag and pre-simulation setting: start dates within [start - duration, end] (date_bounds), none before the period when pre-simulation emissions are off (no_presim_when_disabled), starts of a single-emission source more than `duration` apart (no_overlap_single), ids 0..n-1 unique (ids_unique), pending list popped in strictly increasing start order (generate_sorted). Over exact rationals and the unit tables regenerated from unit_converter.py on every run: gas_convert is linear (convert_linear), converts any SI-written rate back to the same g/s value for every Consistent table (unit_invariance, rate_invariance), capped rates never exceed the converted maximum (cap_respected, cap_respected_dist with the table-positivity obligation), all 56 unit pairs convert with a positive factor; the current table is proved NOT consistent (seconds per year 31 540 000: known finding F10b) and what does hold of it is proved for every quantity: both rate sources return exactly 7884/7885 (1 for per-second units) times the capped physical rate, so SI units sharing a time unit agree exactly (si_drift_all, real_table_rates, same_increment_same_rates, per_second_rates_exact); mscf converts to exactly 353147/353100 of 1000 cubic feet (Units.mscf_drift, F10d); pound, cubic feet, liter, week, month, year are within 2e-6 of their independent legal/SI definitions (Units.non_si_entries_within_tolerance); the seed-index expressions of both generation loops of initialize_emissions are extracted from the AST and proved to be the simulation number (EmisSeed.seed_index_is_simulation_number), from which seeds drawn by randint(0,255) collide for certain beyond 255 simulations and may collide before (seeds_collide_beyond_range, seeds_distinct_counterexample: known finding F10c); after any history of fresh runs, extensions and smaller runs on one generator folder simulation i holds the scenario of emis_preseed_val[i], existing pickles are untouched by an extension and distinct seeds give distinct scenarios (extension_seed_index, extension_preserves_existing, extension_distinct); a table of class-/module-level containers, caches and copy hooks of the five modelled modules is extracted on every run and must show no state that survives between cases and a Source.__reduce__ argument order equal to _reconstruct's (GenState.no_cross_case_state); for every requested count the simulation manager runs exactly the numbers 0..n-1, each once, in both execution modes (numbers_run_exactly_once over batch_simulations, table obligation SimNumber.numbering_is_standard on the expressions extracted from both run loops); whatever runs used the generator folder before and wherever they were killed (after check_generator_files, after setup_infrastructure, after k scenario files, or not at all), a completed run hands out only scenarios generated under its own configuration (handed_out_own_configuration, table obligation GenMarker.marker_removed_with_hashes on the removal order extracted from the source); C16_partial / C16_counterexample. Models are tied to the real Source.generate_emissions, gas_convert (run on exact rationals), EmissionsSource classes built by the real reader from generated emissions files in all 56 units, gen_seed_emis and initialize_emissions (single runs and multi-step folder histories with the applied seed recorded per simulation number) by differential correspondence on every run; each clause of the property is evaluated directly on the implementation outputs (calendar dates read with datetime arithmetic, boundary periods - 1/2-day, Dec 31/Jan 1, Feb 28/29, day 366, whole-year shifts - generated on purpose); same-process histories (emissions files with colliding column names in both orders against the same file loaded alone in a fresh interpreter, reused and same-named Source objects, shared input dictionaries/lists/frames, pickling round trips) and emissions files with unusual column names and shapes are run on every check; the real SimulationManager.run_simulations loops (debug and pool) are driven for many counts, and whole runs in the normal execution mode with 6/7 (thorough 11/13) simulations, the DEBUG route and a run-after-another-run history are judged from the output files and the generator folder (every number simulated once, on its own generated scenario); set-up histories on a real SimulationManager with kill points between the steps are run over configurations differing in one clause-relevant leaf, and every clause is evaluated on the scenarios the last run hands to its simulations against its own parameters; a crash or an unexpected shape of the real code becomes a violation with its input or a broken obligation, never an infrastructure exit.",
+    "text": "Lean theorems over the generator model prove, for every pair of Bernoulli outcome lists, duration, multi-emission flag and pre-simulation setting: start dates within [start - duration, end] (date_bounds), none before the period when pre-simulation emissions are off (no_presim_when_disabled), starts of a single-emission source more than `duration` apart (no_overlap_single), ids 0..n-1 unique (ids_unique), pending list popped in strictly increasing start order (generate_sorted). Over exact rationals and the unit tables regenerated from unit_converter.py on every run: gas_convert is linear (convert_linear), converts any SI-written rate back to the same g/s value for every Consistent table (unit_invariance, rate_invariance), capped rates never exceed the converted maximum (cap_respected, cap_respected_dist with the table-positivity obligation), all 56 unit pairs convert with a positive factor; the current table is proved NOT consistent (seconds per year 31 540 000: known finding F10b) and what does hold of it is proved for every quantity: both rate sources return exactly 7884/7885 (1 for per-second units) times the capped physical rate, so SI units sharing a time unit agree exactly (si_drift_all, real_table_rates, same_increment_same_rates, per_second_rates_exact); mscf converts to exactly 353147/353100 of 1000 cubic feet (Units.mscf_drift, F10d); pound, cubic feet, liter, week, month, year are within 2e-6 of their independent legal/SI definitions (Units.non_si_entries_within_tolerance); the seed-index expressions of both generation loops of initialize_emissions are extracted from the AST and proved to be the simulation number (EmisSeed.seed_index_is_simulation_number), from which seeds drawn by randint(0,255) collide for certain beyond 255 simulations and may collide before (seeds_collide_beyond_range, seeds_distinct_counterexample: known finding F10c); after any history of fresh runs, extensions and smaller runs on one generator folder simulation i holds the scenario of emis_preseed_val[i], existing pickles are untouched by an extension and distinct seeds give distinct scenarios (extension_seed_index, extension_preserves_existing, extension_distinct); a table of class-/module-level containers, caches and copy hooks of the five modelled modules is extracted on every run and must show no state that survives between cases and a Source.__reduce__ argument order equal to _reconstruct's (GenState.no_cross_case_state); for every requested count the simulation manager runs exactly the numbers 0..n-1, each once, in both execution modes (numbers_run_exactly_once over batch_simulations, table obligation SimNumber.numbering_is_standard on the expressions extracted from both run loops); whatever runs used the generator folder before and wherever they were killed (after check_generator_files, after setup_infrastructure, after k scenario files, or not at all), a completed run hands out only scenarios generated under its own configuration (handed_out_own_configuration, table obligation GenMarker.marker_removed_with_hashes on the removal order extracted from the source); C16_partial / C16_counterexample. Models are tied to the real Source.generate_emissions, gas_convert (run on exact rationals), EmissionsSource classes built by the real reader from generated emissions files in all 56 units, gen_seed_emis and initialize_emissions (single runs and multi-step folder histories with the applied seed recorded per simulation number) by differential correspondence on every run; each clause of the property is evaluated directly on the implementation outputs (calendar dates read with datetime arithmetic, boundary periods - 1/2-day, Dec 31/Jan 1, Feb 28/29, day 366, whole-year shifts - generated on purpose); same-process histories (emissions files with colliding column names in both orders against the same file loaded alone in a fresh interpreter, reused and same-named Source objects, shared input dictionaries/lists/frames, pickling round trips) and emissions files with unusual column names and shapes are run on every check; the real SimulationManager.run_simulations loops (debug and pool) are driven for many counts, and whole runs in the normal execution mode with 6/7 (thorough 11/13) simulations, the DEBUG route and a run-after-another-run history are judged from the output files and the generator folder (every number simulated once, on its own generated scenario); set-up histories on a real SimulationManager with kill points between the steps are run over configurations differing in one clause-relevant leaf, and every clause is evaluated on the scenarios the last run hands to its simulations against its own parameters; granular infrastructure files with FALSE / 0 / blank / other override cells at every level are read by the real intake and the handed-out scenarios judged against the most granular value resolved from the files (duration, non-overlap, rate 0 => no emission); a crash or an unexpected shape of the real code becomes a violation with its input or a broken obligation, never an infrastructure exit.",
     "design_ref": "DESIGN.md 5.16",
     "note": "trusted: Lean kernel + propext/Classical.choice/Quot.sound; hand-written models tied by sampled correspondence; the ast extractor of the unit tables (cross-checked against the imported module on every run); float results of the rate-source classes are compared with the exact model inside a rounding envelope of 2^-40 relative (the function itself is compared exactly on rationals); non-SI units (pound, cubic feet, week, month, year) are written as defined by the table, whose entries are bounded against independent definitions at 2e-6 (Lean obligation + harness check), mscf as 1000 cubic feet; a unit deviation is filed under a known finding only when its ratio equals the proved drift within 1e-9; the injectivity seed -> scenario assumed by distinct_scenarios_partial / extension_distinct is measured (evidence: injectivity_assumption) and fails by construction for production rate 0; distributional correctness of the draws and of scipy/numpy is outside this check; 'different scenarios' is checked as distinct seeds + observed scenario inequality on non-degenerate configurations",
     "technique": "Lean 4 proofs over an executable generator / converter model + tables regenerated from source + differential correspondence with the real classes + direct oracle",
@@ -1353,7 +1353,7 @@ def c16_variants(cfg):
     return out
 
 
-def handed_oracle(ctx, G, cfg, handed, inp, seeds=None):
+def handed_oracle(ctx, G, cfg, handed, inp, seeds=None, resolver=None):
     """every C16 clause on the scenarios the completed run HANDS to its simulations, against ITS OWN parameters"""
     from datetime import date as _d
     start, end = _d(*cfg["start"]), _d(*cfg["end"])
@@ -1366,13 +1366,26 @@ def handed_oracle(ctx, G, cfg, handed, inp, seeds=None):
         fps[i] = tuple((p, tuple((d, r) for (d, _, r, _, _) in ems)) for p, ems in rows)
         for (path, ems) in rows:
             ctx.evaluations += 1
+            if resolver is not None:
+                # parameters of THIS source as the most granular level of the input files gives them
+                par = resolver(path)
+                if par["epr"] == 0 and ems:
+                    ctx.violate("C16:handed-out:zero-production-rate-emits",
+                                "a source whose production rate is 0 at the most granular level that specifies it generates emissions",
+                                dict(inp, simulation=i, source=list(path), emissions=len(ems), resolved=par))
+                    continue
             if not ems:
                 continue
             reps = {e[3] for e in ems}
             if len(reps) != 1:
                 ctx.violate("C16:handed-out:mixed-kinds", "one source holds repairable and non-repairable emissions", dict(inp, source=list(path)))
                 continue
-            par = cfg["rep"] if next(iter(reps)) else cfg["nonrep"]
+            if resolver is None:
+                par = cfg["rep"] if next(iter(reps)) else cfg["nonrep"]
+            elif par["repairable"] != next(iter(reps)):
+                ctx.violate("C16:handed-out:kind-not-as-in-sources-file", "the emissions of a source are not of the kind its sources-file row says",
+                            dict(inp, source=list(path), resolved=par))
+                continue
             if {e[4] for e in ems} != {int(par["duration"])}:
                 ctx.violate("C16:handed-out:duration", "a handed-out emission does not have the duration configured for this run",
                             dict(inp, simulation=i, source=list(path), durations=sorted({e[4] for e in ems}), configured=par["duration"]))
@@ -1387,7 +1400,8 @@ def handed_oracle(ctx, G, cfg, handed, inp, seeds=None):
             for v in ctx.violations[before:]:
                 v["signature"] = v["signature"].replace("C16:", "C16:handed-out:", 1)
                 v["input"] = dict(inp, simulation=i, source=list(path), emissions=[[e[0], e[1], e[2]] for e in ems][:12],
-                                  period=[start.isoformat(), end.isoformat()], pre_sim_emissions=cfg["pre_sim_emissions"])
+                                  period=[start.isoformat(), end.isoformat()], pre_sim_emissions=cfg["pre_sim_emissions"],
+                                  resolved=par if resolver is not None else None)
             ctx.nontrivial.add(("handed", case[1], case[2], any(o[0] < 0 for o in out["ems"]), min(len(ems), 4)))
     for a in fps:
         for b in fps:
@@ -1469,6 +1483,123 @@ def run_setup_histories(ctx, G, M, tmp):
             runs = [(rng.choice(pool), rng.choice(["c", "i", "f0", "f1", "f2", "m", "x", "x"])) for _ in range(rng.randint(2, 5))]
             runs.append((rng.choice(pool), "x"))
             setup_history_case(ctx, G, M, tmp, f"{n}", runs, "random-history"); n += 1
+
+
+# ------------------------------------------------------------------------------------------------
+# part N: per-level overrides (FALSE / 0 / blank / other) through the real intake path (round 6)
+# ------------------------------------------------------------------------------------------------
+FAMILIES = {"multi": "multiple_emissions_per_source", "epr": "emissions_production_rate", "duration": "duration"}
+
+
+def _parse_cell(x):
+    x = (x or "").strip()
+    if x == "":
+        return None
+    if x.upper() in ("TRUE", "FALSE"):
+        return x.upper() == "TRUE"
+    try:
+        return int(x)
+    except ValueError:
+        return float(x)
+
+
+def file_resolver(in_dir, cfg):
+    """what the INPUT FILES say a source's parameters are: the most granular level that specifies a value wins
+    (sources row > equipment group > site > site type > parameter file); blank = not specified"""
+    import csv as _csv
+
+    def table(name, key):
+        with open(os.path.join(in_dir, name), newline="") as fh:
+            return {tuple(r[k] for k in key) if len(key) > 1 else r[key[0]]: r for r in _csv.DictReader(fh)}
+    src_t = table("sources.csv", ["component", "source"])
+    eq_t = table("equipment.csv", ["equipment"])
+    site_t = table("sites.csv", ["site_ID"])
+    type_t = table("site_type.csv", ["site_type"])
+
+    def resolve(path):
+        site, eq, compid, src = path
+        comp = compid.rsplit("_", 1)[0]
+        row = src_t[(comp, src)]
+        rep = _parse_cell(row["repairable"])
+        pre = "repairable_" if rep else "non_repairable_"
+        base = cfg["rep"] if rep else cfg["nonrep"]
+        out = {"repairable": rep}
+        for fam, col in FAMILIES.items():
+            chain = [("sources file", row.get(col)), ("equipment group file", eq_t.get(eq, {}).get(pre + col)),
+                     ("sites file", site_t.get(site, {}).get(pre + col)),
+                     ("site type file", type_t.get(site_t[site]["site_type"], {}).get(pre + col))]
+            val, lvl = None, "parameter file"
+            for name, cell in chain:
+                v = _parse_cell(cell)
+                if v is not None:
+                    val, lvl = v, name
+                    break
+            if val is None:
+                val = base[fam]
+            out[fam] = val
+            out[fam + "_from"] = lvl
+        return out
+    return resolve
+
+
+def override_case(ctx, G, tmp, tag, cfg, ov, what):
+    root = os.path.join(tmp, f"ov_{tag}")
+    os.makedirs(root)
+    ov_json = {lvl: {("/".join(k) if isinstance(k, tuple) else str(k)): v for k, v in d.items()} for lvl, d in ov.items()}
+    inp = {"kind": "override-case", "what": what, "cfg": cfg, "overrides": ov_json}
+    try:
+        res = G.run_setup_history(root, [(cfg, "x")], post_materialize=lambda d, c: G.write_granular_overrides(d, c, ov))
+    except (Exception, SystemExit) as e:   # noqa: BLE001
+        real_crash(ctx, "intake of granular infrastructure files", e, inp)
+        return
+    resolver = file_resolver(os.path.join(root, "inputs"), cfg)
+    handed_oracle(ctx, G, cfg, res[-1]["handed"], inp, None, resolver=resolver)
+    for path, _ in res[-1]["handed"][0]:
+        r = resolver(path)
+        for fam in FAMILIES:
+            ctx.nontrivial.add(("override", fam, r[fam + "_from"], r[fam] in (0, False)))
+            ctx.count(f"override:{fam}:{r[fam + '_from']}:" + ("falsy" if r[fam] in (0, False) else "truthy"))
+    ctx.traces += 1
+
+
+def _ov_from_json(ov_json):
+    return {lvl: {(tuple(k.split("/")) if lvl == "sources" else (int(k) if lvl == "sites" else k)): v for k, v in d.items()}
+            for lvl, d in ov_json.items()}
+
+
+def run_granular_overrides(ctx, G, tmp):
+    from harness import wholerun as W
+    rng = ctx.rng
+
+    def base_cfg(truthy):
+        c = W.make_config(rng, granular=True, n_sims=2, ndays=120, n_sites=rng.randint(3, 5),
+                          programs=[{"name": "P_none", "methods": []}])
+        c["rep"].update(epr=0.25, duration=20, multi=True if truthy else rng.random() < 0.5)
+        c["nonrep"].update(epr=0.25, duration=10, multi=True if truthy else rng.random() < 0.5)
+        return c
+
+    # the shape on purpose: inherited True / positive everywhere above, the sources rows say FALSE / 0 / 0
+    c = base_cfg(True)
+    srcs = [(s["component"], s["source"]) for s in c["sources"]]
+    for fam, falsy in (("multi", False), ("epr", 0), ("duration", 0)):
+        ov = {"sources": {k: {FAMILIES[f]: (falsy if f == fam else None) for f in FAMILIES} for k in srcs},
+              "equipment": {e: {p + FAMILIES[fam]: ({"multi": True, "epr": 0.5, "duration": 15}[fam])
+                                for p in ("repairable_", "non_repairable_")} for e in list(c["equipment"])[:2]}}
+        override_case(ctx, G, tmp, f"falsy_{fam}", c, ov, f"source-level {falsy!r} against inherited truthy {fam}")
+    choices = {"multi": [None, None, False, True], "epr": [None, None, 0, 0.5], "duration": [None, None, 0, 7, 33]}
+    for k in range(ctx.pick(8, 60)):
+        c = base_cfg(rng.random() < 0.5)
+        ov = {"sources": {}, "equipment": {}, "sites": {}, "site_types": {}}
+        for key in [(s["component"], s["source"]) for s in c["sources"]]:
+            ov["sources"][key] = {FAMILIES[f]: rng.choice(choices[f]) for f in FAMILIES}
+        for lvl, keys in (("equipment", list(c["equipment"])), ("sites", [s_["id"] for s_ in c["sites"]]),
+                          ("site_types", list(c["site_types"]))):
+            for key in keys:
+                if rng.random() < 0.6:
+                    ov[lvl][key] = {p + FAMILIES[f]: rng.choice(choices[f]) for f in FAMILIES
+                                    for p in ("repairable_", "non_repairable_") if rng.random() < 0.6}
+        ov = {lvl: d for lvl, d in ov.items() if any(d.values())}
+        override_case(ctx, G, tmp, f"r{k}", c, ov, "random overrides at every level")
 
 
 UNITDEFS = None
@@ -1616,6 +1747,7 @@ def run(ctx):
         part("production rates", lambda: run_bad_production_rates(ctx, G))
         part("simulation numbers", lambda: run_sim_numbers(ctx, G, M))
         part("set-up histories with kill points", lambda: run_setup_histories(ctx, G, M, tmp))
+        part("per-level overrides through the intake", lambda: run_granular_overrides(ctx, G, tmp))
         part("whole run", lambda: run_wholerun(ctx, G, tmp))
     finally:
         shutil.rmtree(tmp, ignore_errors=True)
@@ -1727,6 +1859,8 @@ def replay(ctx, data):
             check_nonsi_table(ctx, u)
         elif kind == "bad-rate-case":
             run_bad_production_rates(ctx, G)
+        elif kind == "override-case":
+            override_case(ctx, G, tmp, "r", inp["cfg"], _ov_from_json(inp["overrides"]), inp.get("what", "?"))
         elif kind == "setup-history-case":
             M = Model(ctx)
             runs = [(inp["configs"][ci], k) for ci, k in zip(inp["config_of_run"], inp["kills"])]
